@@ -91,6 +91,13 @@ def check(ctx: Ctx, rep: Report):
     for m in prog.modules.values():
         rep.analysed_add("modules", m.relpath)
     r1(ctx, rep, fams)
+    # the validator consulted at receive time is the one of the request in flight: _send_request binds self.command
+    # (and the future) to its arguments before the write on every path (shared with C09.R4)
+    from .c09 import r4 as c09_r4
+    sub = Report("C09", rep.tier)
+    c09_r4(ctx, sub)
+    for o in sub.obligations:
+        rep.obligations.append(type(o)("C01.R1", "bind:" + o.key, o.where, o.what, o.status, o.detail))
     r2(ctx, rep, fams)
     r3(ctx, rep, fams)
     r4(ctx, rep, fams)
